@@ -10,7 +10,7 @@ DataM == KeysM \ { <<1, 1>>, <<254, 255>> }
 PfxM == { <<1>>, <<255>>, <<1, 255>> }
 EmptyB == [i \in Idx |-> "NIL"]
 FullB == [i \in Idx |-> IF i \in DataIdx THEN "a" ELSE "NIL"]
-AltB == [i \in Idx |-> IF i \in DataIdx /\ i % 2 = 1 THEN "b" ELSE "NIL"]
+AltB == [i \in Idx |-> IF i \in DataIdx /\ i % 2 = 1 THEN "" ELSE "NIL"]
 Bases1 == {FullB}
 Bases2 == {EmptyB, FullB}
 Bases3 == {EmptyB, FullB, AltB}
